@@ -77,7 +77,9 @@ class Case:
             table = [("linear", None, 1.0), ("conv1d", None, 1.0), ("conv2d", None, 1.0), ("sigmoid", None, 1.0), ("tanh", None, 5.0 / 3),
                      ("relu", None, math.sqrt(2.0)), ("leaky_relu", None, math.sqrt(2.0 / (1 + 0.01 ** 2))),
                      ("leaky_relu", 0.2, math.sqrt(2.0 / (1 + 0.2 ** 2))), ("leaky_relu", 1, 1.0), ("leaky_relu", 0, math.sqrt(2.0)),
-                     ("selu", None, 0.75)]
+                     ("selu", None, 0.75),
+                     # the slope argument belongs to leaky_relu alone: every other nonlinearity ignores it (PyTorch)
+                     ("relu", 0.5, math.sqrt(2.0)), ("tanh", 0.2, 5.0 / 3), ("linear", 3, 1.0), ("selu", 0.2, 0.75)]
             for nl, prm, want in table:
                 got = init.calculate_gain(nl, prm) if prm is not None else init.calculate_gain(nl)
                 out.fact("calculate_gain(%s, %s) = %.6g" % (nl, prm, want), abs(float(got) - want) <= 1e-12 * max(1.0, want), "got %r" % (got,))
@@ -279,7 +281,7 @@ def enumerate_specs(tier):
                 specs.append({"fn": fn, "shape": list(s), "gain": g})
         for mode in ("fan_in", "fan_out"):
             for nl, a in [("leaky_relu", a) for a in SLOPES] + [("relu", 0), ("tanh", 0), ("linear", 0), ("sigmoid", 0),
-                                                                 ("selu", 0), ("conv2d", 0)]:
+                                                                 ("selu", 0), ("conv2d", 0), ("relu", SLOPES[-1]), ("tanh", SLOPES[1])]:
                 for fn in ("kaiming_uniform_", "kaiming_normal_"):
                     specs.append({"fn": fn, "shape": list(s), "mode": mode, "nonlinearity": nl, "a": a})
     for (i, o) in [(3, 2), (1, 4)]:
